@@ -1836,7 +1836,11 @@ fn try_bitpacking(
         );
         if let Some((min, max)) = encoding_range {
             fn bits(max: i64) -> i64 {
-                ((max + 1) as f64).log2().ceil() as i64
+                if max <= 0 {
+                    0
+                } else {
+                    64 - (max as u64).leading_zeros() as i64
+                }
             }
             let max = if query_plan.is_nullable() && min <= 0 {
                 max + 1
